@@ -333,13 +333,13 @@ def run_proc(ctx, spec):
                     break
             ctx.sig(['proc', h64(ls), sup])
             if i % 2 == 0:
-                pace_through_fifo(ctx, rng, d, ls, sup)
+                pace_through_fifo(ctx, rng, d, ls, sup, ['-l', '-p'][(i // 2) % 2])
     finally:
         import shutil
         shutil.rmtree(d, ignore_errors=True)
 
 
-def pace_through_fifo(ctx, rng, d, ls, sup):
+def pace_through_fifo(ctx, rng, d, ls, sup, mode):
     """keeping pace with a source that is still open: the log arrives through a named pipe (`-l FIFO`) or standard input (`-p`), one
     line at a time; the item a line owes must show up while the source is still open and nothing more has been written.  The
     verdict is not a wall-clock deadline: a line counts as not answered only when the tool has been IDLE (no CPU time
@@ -351,7 +351,6 @@ def pace_through_fifo(ctx, rng, d, ls, sup):
     msg_lines = [l for l in ls if l.strip() and not l.isspace()][:12]
     if len(msg_lines) < 3:
         return
-    mode = rng.choice(['-l', '-p'])
     fifo = os.path.join(d, 'in.fifo')
     if os.path.exists(fifo):
         os.unlink(fifo)
